@@ -225,7 +225,7 @@ CHECKS = {
         "level": "proof",
         "assumptions": CHRONO_ASSUMPTIONS + DUAL_ASSUMPTIONS + [
             "create_fx_array as CALLED by try_new / update / set_ad_order is an ASSUMED deterministic function fx_build(currencies, quotes, order): it fails or succeeds independently of the order, returns a square matrix of the requested order, and its values do not depend on the order (axiom_fx_build)",
-            "create_fx_array's BODY is under a second, relational contract (create_fx_array_lift): every quote is lifted by set_order_clone (C18's table) with the single name fx_tag(pair), converted by the From<&Number> conversion of the requested order, and the matrix of that order is seeded and filled; the two generic callees appear as `_g` stand-ins (assumed deterministic; success depends on the edge matrix only) whose bodies are the ones proved at T := Rg under C09; `format!(\"fx_{}\", pair)` is an uninterpreted function of the pair (declared substitution)",
+            "create_fx_array's BODY is under a second, relational contract (create_fx_array_lift): every quote is lifted by set_order_clone (C18's table) with the single name fx_tag(pair), converted by the From<&Number> conversion of the requested order, and the matrix of that order is seeded and filled; the two generic callees appear as `_g` stand-ins (assumed deterministic; success == connectedness of the quote graph, which is what is PROVED for their bodies at T := Rg under C09), hence the builder succeeds exactly for connected quote sets whatever the requested order (lemma_lift_success_order_independent); `format!(\"fx_{}\", pair)` is an uninterpreted function of the pair (declared substitution)",
             "derived Clone of FXRate / NumberArray2 / IndexSet<Ccy> is structural; Ccy (interned string handle) is equal exactly when the names are equal",
             "IndexSet<Ccy> insert / get_index_of / index, Array2::from_shape_vec / into_iter, Vec::clone_from, Iterator fold / enumerate / all / any: shim contracts",
         ],
